@@ -411,7 +411,7 @@ func c16Cancel(e *Env, acq, can *ssa.Function) {
 					}
 				}
 				b, ok := in.(*ssa.BinOp)
-				if !ok || b.Op != token.EQL {
+				if !ok || (b.Op != token.EQL && b.Op != token.NEQ) {
 					return
 				}
 				if core.Resolve(b.X) == ssa.Value(own) || core.Resolve(b.Y) == ssa.Value(own) {
